@@ -89,7 +89,10 @@ def build(case):
                 inf = np.array([rng.random() < v["p_inf"] for _ in range(n)])
                 arr = np.where(inf, np.inf, arr)
         data[v["name"]] = (tuple(v["dims"]), arr.reshape(shape))
-    return xr.Dataset(data, coords=coords, attrs=dict(case["attrs"]))
+    attrs = {k: ({"np.True_": np.True_, "np.False_": np.False_}.get(v, v)
+                 if isinstance(v, str) else v)
+             for k, v in case["attrs"].items()}
+    return xr.Dataset(data, coords=coords, attrs=attrs)
 
 
 def kind_of(dt):
@@ -129,8 +132,10 @@ def compare(orig, got, netcdf, tag):
                         f"{orig[v].values!r:.300}")
     want_attrs = {}
     for k, val in orig.attrs.items():
-        if netcdf and (val is None or val is True or val is False):
-            val = str(val)
+        if netcdf and (val is None or val is True or val is False or
+                       isinstance(val, np.bool_)):
+            # (numpy's booleans are booleans too)
+            val = str(bool(val)) if val is not None else "None"
         want_attrs[k] = val
     require(set(got.attrs) == set(want_attrs), "attrs-names",
             f"{tag}: attrs {dict(got.attrs)!r} vs {want_attrs!r}")
@@ -294,7 +299,7 @@ def run_case(case):
 # ----------------------------------------------------------------- strategy
 
 ATTR_VALUES = [3, -1, 2.5, "text", "", None, True, False, [1, 2, 3],
-               [0.5, 1.5], 0]
+               [0.5, 1.5], 0, "np.True_", "np.False_"]
 
 
 @st.composite
